@@ -286,6 +286,16 @@ func (e *Exec) checkPosts(fr *Frame, st *State, ret *ssa.Return, vals []Val) {
 		}
 		o.Pos = posOf(e.P, ret.Pos())
 	}
+	// lock balance: a lock acquired in this function is released again on every return
+	for _, k := range sortedKeys(st.mayHeld) {
+		t := st.mayHeld[k]
+		short := k
+		if i := strings.Index(short, "@"); i >= 0 {
+			short = short[:i]
+		}
+		lo := e.obligeNoAssume(st, "lock:released:"+short+suffix, "lockbalance", nil, sNot(t), "a lock acquired in this function ("+short+") is released again before the function returns", ret.Pos())
+		lo.Pos = posOf(e.P, ret.Pos())
+	}
 	if e.fc.ChanResult != "" && len(vals) == 1 {
 		// the contract promises the channel behind a particular ghost log
 		cl := e.chanLogOf(vals[0])
@@ -761,6 +771,16 @@ func (e *Exec) callModular(fr *Frame, st *State, in ssa.Instruction, fc *FuncCon
 			e.havocClause(penv, st, fc, m)
 		}
 	}
+	// a function value handed to the callee may be called by it: variables it captures by
+	// reference and writes are not known to keep their value across this call
+	for _, a := range args {
+		if a.K != KRef {
+			continue
+		}
+		if ci, ok := e.closures[a.t()]; ok {
+			e.havocCaptured(st, ci, map[*ssa.Function]bool{})
+		}
+	}
 	e.bumpTop(st)
 	// results
 	var results []Val
@@ -1135,4 +1155,72 @@ func inductionInit(li *loopInfo, phi *ssa.Phi) (ssa.Value, bool) {
 		}
 	}
 	return init, init != nil
+}
+
+
+// havocCaptured forgets the value of every variable the closure captures by reference
+// and may write (directly or through a nested closure).
+func (e *Exec) havocCaptured(st *State, ci closureInfo, seen map[*ssa.Function]bool) {
+	if seen[ci.fn] {
+		return
+	}
+	seen[ci.fn] = true
+	for i, fv := range ci.fn.FreeVars {
+		if i >= len(ci.binds) {
+			break
+		}
+		pt, ok := fv.Type().Underlying().(*types.Pointer)
+		if !ok || !freeVarWritten(ci.fn, fv, map[*ssa.Function]bool{}) {
+			continue
+		}
+		b := ci.binds[i]
+		if b.K != KRef {
+			continue
+		}
+		if _, isStruct := pt.Elem().Underlying().(*types.Struct); isStruct && !isOpaqueStruct(pt.Elem()) {
+			e.note("closure %s writes the captured struct variable %s: its fields are not havocked at calls that receive the closure", ci.fn.Name(), fv.Name())
+			continue
+		}
+		if _, isArr := pt.Elem().Underlying().(*types.Array); isArr {
+			continue
+		}
+		nv := e.freshVal("cap_"+sanitize(fv.Name()), pt.Elem(), kindOf(pt.Elem()))
+		e.typeFacts(nv, pt.Elem(), st)
+		e.writeCell(st, b.t(), pt.Elem(), nv)
+	}
+}
+
+func freeVarWritten(fn *ssa.Function, fv *ssa.FreeVar, seen map[*ssa.Function]bool) bool {
+	if seen[fn] {
+		return false
+	}
+	seen[fn] = true
+	refs := fv.Referrers()
+	if refs == nil {
+		return false
+	}
+	for _, r := range *refs {
+		switch x := r.(type) {
+		case *ssa.DebugRef:
+		case *ssa.UnOp:
+			if x.Op != token.MUL {
+				return true
+			}
+		case *ssa.Store:
+			if x.Addr == fv {
+				return true
+			}
+			return true // the address itself is stored somewhere
+		case *ssa.MakeClosure:
+			inner := x.Fn.(*ssa.Function)
+			for i, b := range x.Bindings {
+				if b == fv && i < len(inner.FreeVars) && freeVarWritten(inner, inner.FreeVars[i], seen) {
+					return true
+				}
+			}
+		default:
+			return true
+		}
+	}
+	return false
 }
